@@ -162,3 +162,36 @@ func VerifC18_Coins() {
 	zz.Assert("C18.coins.operands-unchanged", len(a) == lenA && len(b) == lenB && vSameAmounts(a, am) && vSameAmounts(b, bm) && vCanonical(a) && vCanonical(b))
 	zz.Reach("C18.coins")
 }
+
+// VerifC18_CoinsZeroAmounts: zero-amount coins are dropped wherever the API accepts them - NewCoins over all three
+// denominations in a symbolic argument order with amounts that may be zero (any number of them, adjacent or not), and
+// Add with a sorted operand that carries zero-amount coins (the documented "{2A} + {0B} = {2A}" usage): the result is
+// canonical and holds exactly the non-zero amounts.
+func VerifC18_CoinsZeroAmounts() {
+	hi := new(big.Int).Lsh(big.NewInt(1), 200)
+	amts := make([]*big.Int, len(vDenoms))
+	var cs []Coin
+	for i, d := range vDenoms {
+		amts[i] = big.NewInt(0)
+		if zz.Choice("nonzero."+d, 2) == 1 {
+			amts[i] = zz.Big("amount."+d, big.NewInt(1), hi)
+		}
+		cs = append(cs, Coin{Denom: d, Amount: NewIntFromBigInt(new(big.Int).Set(amts[i]))})
+	}
+	perms := [][]int{{0, 1, 2}, {0, 2, 1}, {1, 0, 2}, {1, 2, 0}, {2, 0, 1}, {2, 1, 0}}
+	pm := perms[zz.Choice("argument_order", len(perms))]
+	var set Coins
+	zz.Assert("C18.coins.zero.newcoins-does-not-panic", !vPanics(func() { set = NewCoins(cs[pm[0]], cs[pm[1]], cs[pm[2]]) }))
+	zz.Assert("C18.coins.zero.newcoins-canonical", vCanonical(set) && set.IsValid() && vSameAmounts(set, amts))
+	// Add: a valid set plus a sorted operand with zero-amount coins
+	a, am := vCoins("a", 2)
+	b := Coins{cs[0], cs[1], cs[2]}
+	var sum Coins
+	zz.Assert("C18.coins.zero.add-does-not-panic", !vPanics(func() { sum = a.Add(b) }))
+	want := make([]*big.Int, len(vDenoms))
+	for i := range want {
+		want[i] = new(big.Int).Add(am[i], amts[i])
+	}
+	zz.Assert("C18.coins.zero.add-canonical", vCanonical(sum) && sum.IsValid() && vSameAmounts(sum, want))
+	zz.Reach("C18.coins.zero")
+}
